@@ -1,0 +1,82 @@
+//! Verification hooks (compiled only with the cargo feature `verif`; add-only, read-mostly).
+//!
+//! Sync points ("gates") let a test harness park a background thread (expiry sweeper, BGSAVE)
+//! at a named place, observe or change the dataset, and release it; counters expose progress
+//! (sweeper passes, event-loop iterations, RDB write calls); the RDB writer can be told to
+//! fail its n-th write.  Nothing here runs unless a `VERIF` command arms it.
+
+use std::collections::HashMap;
+use std::io;
+use std::sync::atomic::{AtomicBool, AtomicI64, AtomicU64, Ordering};
+use std::sync::Mutex;
+use std::time::{Duration, Instant};
+
+pub static SWEEPER_PAUSED: AtomicBool = AtomicBool::new(false);
+pub static SWEEPER_PASSES: AtomicU64 = AtomicU64::new(0);
+pub static LOOP_ITERATIONS: AtomicU64 = AtomicU64::new(0);
+pub static RDB_WRITES: AtomicU64 = AtomicU64::new(0);
+/// countdown to the failing RDB write: 0 = never fail
+pub static RDB_FAIL_IN: AtomicI64 = AtomicI64::new(0);
+
+#[derive(Default, Clone, Copy)]
+struct Gate {
+    armed: bool,
+    reached: bool,
+}
+
+lazy_static::lazy_static! {
+    static ref GATES: Mutex<HashMap<String, Gate>> = Mutex::new(HashMap::new());
+}
+
+/// Called by background threads at a named sync point: if the gate is armed, mark it reached
+/// and wait (at most 30 s) until it is released.
+pub fn gate(name: &str) {
+    {
+        let mut g = GATES.lock().unwrap();
+        match g.get_mut(name) {
+            Some(gate) if gate.armed => gate.reached = true,
+            _ => return,
+        }
+    }
+    let t0 = Instant::now();
+    loop {
+        std::thread::sleep(Duration::from_millis(2));
+        let g = GATES.lock().unwrap();
+        match g.get(name) {
+            Some(gate) if gate.armed && t0.elapsed() < Duration::from_secs(30) => {}
+            _ => return,
+        }
+    }
+}
+
+pub fn gate_arm(name: &str) {
+    GATES.lock().unwrap().insert(name.to_string(), Gate { armed: true, reached: false });
+}
+
+pub fn gate_release(name: &str) {
+    GATES.lock().unwrap().remove(name);
+}
+
+pub fn gate_reached(name: &str) -> bool {
+    GATES.lock().unwrap().get(name).map(|g| g.reached).unwrap_or(false)
+}
+
+/// Sweeper: block while paused
+pub fn sweeper_wait_while_paused() {
+    while SWEEPER_PAUSED.load(Ordering::SeqCst) {
+        std::thread::sleep(Duration::from_millis(5));
+    }
+}
+
+/// RDB writer: count the call and fail it if the countdown says so
+pub fn rdb_write_hook() -> io::Result<()> {
+    RDB_WRITES.fetch_add(1, Ordering::SeqCst);
+    let left = RDB_FAIL_IN.load(Ordering::SeqCst);
+    if left > 0 {
+        let now = RDB_FAIL_IN.fetch_sub(1, Ordering::SeqCst);
+        if now == 1 {
+            return Err(io::Error::new(io::ErrorKind::Other, "verif: injected RDB write failure"));
+        }
+    }
+    Ok(())
+}
